@@ -10,7 +10,7 @@ After EVERY operation the whole observable state is read back through the public
 through the oldest handle objects held), and every single call - the operations and the reads -
 is compared with
 
-  impl   the Lean model MongoModel.Catalog.step (faithful, remaining defects included),
+  impl   the Lean model MongoModel.Catalog.step (faithful to the code as it is),
   spec   the oracle Spec.Catalog.step taken from the abstraction of the model's state (per step),
   spech  the oracle run along the whole history from the empty server (never re-synchronised),
 
@@ -19,8 +19,10 @@ model's and the oracle's successor states denote the same maps.  The reads are p
 history the model sees (a read lazily creates stores in mongomock, and that is observable
 through list_collection_names(filter=...) whenever the code lists more than what exists).
 
-The exclusion classes left are vanish_last_doc / vanish_last_index (known findings) and the two
-scope limits.  rename_self_droptarget, filter_lists_uncreated, drop_database_foreign_handle,
+The only exclusion classes left are the two scope limits (KNOWN_SCOPE); no known finding
+remains.  vanish_last_doc, vanish_last_index (existence is recorded since the repair: a collection
+exists from its first insert / index creation / create_collection until it is dropped),
+rename_self_droptarget, filter_lists_uncreated, drop_database_foreign_handle,
 drop_collection_foreign_handle and system_create_existing were repaired in the library: they are
 no class of D any more, the model follows the repaired code, so the old behaviour departs from
 model and oracle alike and is a VIOLATION.  The witnesses of the repaired findings
@@ -421,9 +423,9 @@ def gen_action(rng, st):
 def gen_history(rng):
     n = rng.choice([1, 2, 3, 4, 6, 8, 10, 14, 20, 30]) if rng.random() < 0.6 else rng.randint(1, 30)
     acts = []
-    # some histories start by explicitly creating collections, so that emptying them later
-    # does not make them vanish (keeps a good share of whole histories inside D)
-    if rng.random() < 0.45:
+    # some histories start by explicitly creating collections; in the others a collection comes
+    # to exist by its first insert / index creation only, and has to survive being emptied
+    if rng.random() < 0.3:
         for m in rng.sample(COLLS, rng.choice([1, 2, 3])):
             acts.append(['create_collection', rng.choice([0, 2]), 'd1', 'new', m])
     while len(acts) < n:
